@@ -53,13 +53,14 @@ namespace occa {
 
    #if OCCA_THREAD_SHARABLE_ENABLED
     template <class entry_t>
-    void ring_t<entry_t>::removeRef(entry_t *entry, const bool threadLock) {
+    bool ring_t<entry_t>::removeRef(entry_t *entry, const bool threadLock) {
       if (threadLock)
         mutex.lock();
       // Check if the ring is empty
       if (!entry || !head) {
+        const bool ringNeedsFree = needsFree();
         mutex.unlock();
-        return;
+        return ringNeedsFree;
       }
       ringEntry_t *tail = head->leftRingEntry;
       // Remove the entry ref from its ring
@@ -70,14 +71,18 @@ namespace occa {
                 ? tail
                 : NULL);
       }
+      // The caller frees the owner when the last reference is gone: decide
+      // that while no other thread can change the ring
+      const bool ringNeedsFree = needsFree();
       mutex.unlock();
+      return ringNeedsFree;
     }
    #else
     template <class entry_t>
-    void ring_t<entry_t>::removeRef(entry_t *entry) {
+    bool ring_t<entry_t>::removeRef(entry_t *entry) {
       // Check if the ring is empty
       if (!entry || !head) {
-        return;
+        return needsFree();
       }
       ringEntry_t *tail = head->leftRingEntry;
       // Remove the entry ref from its ring
@@ -88,6 +93,7 @@ namespace occa {
                 ? tail
                 : NULL);
       }
+      return needsFree();
     }
    #endif
     template <class entry_t>
